@@ -740,10 +740,15 @@ def run_mt_case(ctx, env, rng, nworkers, nsess, p_fault, scheduled):
         for t in threads: t.start()
         deadline = time.time() + WATCHDOG
         for t in threads: t.join(max(0.0, deadline - time.time()))
-        if any(t.is_alive() for t in threads):
+        while any(t.is_alive() for t in threads):
+            n0 = len(rec.events)
+            time.sleep(2.0)
+            if len(rec.events) != n0 and time.time() < deadline + 60: continue      # slow, not blocked
             status = 'watchdog'
             lp = lock_problems(env)
-            if lp: res['problems'].append({'problem': 'workers_blocked_lock_held', 'locks': lp})
+            if lp and len(rec.events) == n0:
+                res['problems'].append({'problem': 'workers_blocked_lock_held', 'locks': lp})
+            break
     del rec.faults[:]
     res['status'] = status
     res['faults_fired'] = fault.fired
